@@ -1,6 +1,7 @@
 import SteelVerif.C18.LemmasWitness
 import SteelVerif.C18.LemmasCc
 import SteelVerif.C18.LemmasDropAll
+import SteelVerif.C18.LemmasSpace
 import SteelVerif.C18.GenTraversals
 /-
 C18 — arbitrarily deep, wide or cyclic values are handled without exhausting the host.
@@ -16,49 +17,117 @@ namespace SteelVerif.C18
 
 /-! ## 1. Worklist operations use constant native stack — for ALL graphs (any depth, width, cyclic) -/
 
-/-- Every operation that the configuration marks as a worklist for all kinds runs in one native frame, whatever
-    the graph is and however deep the (cut-off) unfolding is taken.
-    WHAT THIS SAYS AND WHAT IT DOES NOT: for `collect`, `mark` and `send` — the only operations with
-    `iterativeIn Cfg.current` — the bound holds BY CONSTRUCTION of the model (`nativeDepth` is the constant 1 for
-    them: the marker, the cycle collector and the drop handler are written as `iter` of a step function, a loop);
-    that the code's `visit_*` methods really never call `visit` is the regenerated table
-    (`worklists_do_not_recurse`), not this theorem.  For `eq`, `hash`, `drop` the theorem has content only for
+/-- Every operation that the configuration marks as a worklist for all kinds runs in at most `wlFrames = 4` native
+    frames, whatever the graph is and however long the run is taken.
+    WHAT THIS SAYS: for `mark` and `collect` `nativeDepth` is MEASURED on the visitor machine `mStep` — the deepest
+    native call stack (`visit` → `visit_<kind>` → `mark_heap_reference` / `add` → `push_back`) among all states of the
+    run — and the bound is the invariant `StackOk` of that machine (`machine_native_stack_bounded`); that the machine
+    is the loop model of §2 is `marker_loop_is_machine_run`; that the code's methods call each other the way the machine's
+    frames do is the regenerated call graph (§4: `worklist_call_graphs_acyclic`, `worklist_native_stack_scanned`).
+    `send` moves one reference (`as_rooted`).  For `eq`, `hash`, `drop` the theorem has content only for
     configurations that differ from the code (`Cfg.fixed`); for the code as it is the statements about these
     operations are the NEGATIONS of §3. -/
 theorem iterative_constant_depth (c : Cfg) (op : Op) (h : op.iterativeIn c = true) (g : Graph) (fuel v : Nat) :
-    nativeDepth c op g fuel v ≤ 1 := by
+    nativeDepth c op g fuel v ≤ wlFrames := by
   cases op with
   | eq =>
     simp only [Op.iterativeIn] at h
-    exact recDepth_const _ _ (fun _ => by simp [h]) fuel v
+    have := recDepth_const (containerKeys g) (fun _ => !c.eqKeysIterative) (fun _ => by simp [h]) fuel v
+    simp only [nativeDepth, eqKeyDepth, wlFrames]; omega
   | hash =>
     simp only [Op.iterativeIn] at h
-    exact recDepth_const _ _ (fun _ => by simp [h]) fuel v
-  | collect => simp [nativeDepth]
+    have := recDepth_const g.sons (fun v => !c.hashIterative && hashRecurses (g.kind v)) (fun _ => by simp [h]) fuel v
+    simp only [nativeDepth, hashDepth, wlFrames]; omega
+  | collect => exact mProfile_depth_le _ _ _ fuel (mInit [v]) 0 0 (stackOk_init [v]) (by decide)
   | print => simp [Op.iterativeIn] at h
-  | mark => simp [nativeDepth]
+  | mark => exact mProfile_depth_le _ _ _ fuel (mInit [v]) 0 0 (stackOk_init [v]) (by decide)
   | drop =>
     simp only [Op.iterativeIn, Bool.and_eq_true] at h
-    exact recDepth_const _ _ (fun w => by cases hk : (g.kind w) <;> simp [dropNativeKind, h.1, h.2]) fuel v
-  | send => simp [nativeDepth]
+    have := recDepth_const g.sons (fun w => dropNativeKind c (g.kind w))
+      (fun w => by cases hk : (g.kind w) <;> simp [dropNativeKind, h.1, h.2]) fuel v
+    simp only [nativeDepth, dropDepth, wlFrames]; omega
+  | send => simp [nativeDepth, wlFrames]
+  | serialize => simp [Op.iterativeIn] at h
 
-/-- The definitional part of `iterative_constant_depth`, stated as what it is. -/
-theorem worklist_depth_by_construction (c : Cfg) (g : Graph) (fuel v : Nat) :
-    nativeDepth c .mark g fuel v = 1 ∧ nativeDepth c .collect g fuel v = 1 ∧ nativeDepth c .send g fuel v = 1 :=
-  ⟨rfl, rfl, rfl⟩
+/-- **The native stack of the visitor machine** — in every state that the machine reaches from the call of `visit`,
+    for every graph, every order of the children, every choice of tracked kinds and of kinds that switch recording on
+    (so: the marker and the cycle collector under every configuration), the call stack holds at most four frames. -/
+theorem machine_native_stack_bounded (sons : Nat → List Nat) (setsFound : Nat → Bool) (tracked : Bool → Nat → Bool)
+    (roots : List Nat) (n : Nat) (t : MSt) (h : runN (mStep sons setsFound tracked) n (mInit roots) = some t) :
+    t.stack.length ≤ wlFrames :=
+  machine_depth_le sons setsFound tracked roots n t h
 
-/-- Non-vacuity of `iterative_constant_depth` where it has content: hashing and dropping a chain of 5 lists /
-    closures under `Cfg.fixed` (one frame; `Cfg.current` uses 6 — §5). -/
-example : nativeDepth Cfg.fixed .hash (chain .list 5) 100 5 ≤ 1 ∧ nativeDepth Cfg.fixed .drop (chain .closure 5) 100 5 ≤ 1 :=
-  ⟨iterative_constant_depth Cfg.fixed .hash (by decide) _ _ _, iterative_constant_depth Cfg.fixed .drop (by decide) _ _ _⟩
+/-- **The loop model is the machine** — one round of `wlStep` (the marker of §2, any tracked set) is a run of the machine
+    from loop head to loop head with the same queue and the same marks, and when the loop model is done the machine
+    returns from `visit` with the same marks. -/
+theorem marker_loop_is_machine_run (c : Cfg) (g : Graph) (w vis : List Nat) :
+    (∀ w' vis', wlStep g (markTracked c g) { work := w, vis := vis } = .next { work := w', vis := vis' } →
+      ∃ n, runN (mStep (fun v => (g.sons v).reverse) (fun _ => false) (fun _ v => markTracked c g v)) n
+          { stack := [.visit], queue := w, vis := vis, found := false }
+        = some { stack := [.visit], queue := w', vis := vis', found := false }) ∧
+    (∀ r, wlStep g (markTracked c g) { work := w, vis := vis } = .done r →
+      ∃ t, runN (mStep (fun v => (g.sons v).reverse) (fun _ => false) (fun _ v => markTracked c g v)) 1
+          { stack := [.visit], queue := w, vis := vis, found := false } = some t ∧
+        mStep (fun v => (g.sons v).reverse) (fun _ => false) (fun _ v => markTracked c g v) t = .done r) :=
+  ⟨fun w' vis' h => machine_simulates_wl g (markTracked c g) w vis w' vis' h,
+   fun r h => machine_simulates_wl_done g (markTracked c g) w vis r h⟩
+
+/-- Non-vacuity: the machine on a chain of 5 lists reaches 3 frames (`push_back` ← `visit_list` ← `visit`), on a chain
+    of 5 boxes 4 frames (`push_back` ← `mark_heap_reference` ← `visit_heap_allocated` ← `visit`); on the cyclic
+    `ring .box 3` it ends with all three boxes marked, the queue never longer than one entry. -/
+example : nativeDepth Cfg.current .mark (chain .list 5) 200 5 = 3 ∧ nativeDepth Cfg.current .mark (chain .box 5) 200 5 = 4 ∧
+    nativeDepth Cfg.current .collect (chain .box 5) 200 5 = 4 := by decide
+example : mProfile (ring .box 3).sons (fun _ => false) (fun _ v => markTracked Cfg.current (ring .box 3) v) 100 (mInit [0]) 0 0
+    = (4, 1, some [2, 1, 0]) := by decide
+
+/-- **Heap space of the marker's worklist** — with a visited mark on every container (`Cfg.fixed`) the worklist holds at
+    most `|roots| + |edges|` entries in every state the loop reaches, for every graph; and the loop ends within
+    `|roots| + |edges| + 1` rounds (linear, where `mark_terminates_cyclic` says `|g|·(maxDeg+1)`). -/
+theorem worklist_space_linear (c : Cfg) (h1 : c.markSboxVisited = true) (h2 : c.markImmVisited = true) (g : Graph)
+    (roots : List Nat) :
+    (∀ n t, runN (wlStep g (markTracked c g)) n { work := roots, vis := [] } = some t → t.work.length ≤ roots.length + g.edges) ∧
+    ∃ m, markRun c g (roots.length + g.edges + 1) roots = some m := by
+  have hall : ∀ v, markTracked c g v = false → g.sons v = [] := by
+    intro v hv
+    unfold Graph.sons
+    cases hk : (g.node v).kind <;> simp [markTracked, Graph.kind, hk, h1, h2] at hv ⊢
+  have h4 : ∀ v, markTracked c g v = true → v < g.size := by
+    intro v hv
+    apply lt_size_of_kind_ne_leaf
+    intro hk
+    simp [markTracked, hk] at hv
+  exact ⟨fun n t h => wl_space_linear g (markTracked c g) hall h4 roots n t h,
+    wl_terminates_linear g (markTracked c g) hall h4 roots⟩
+
+/-- the same for the code as it is, when the value has no immutable containers / strong boxes with children
+    (mutable vectors and boxes over leaves — e.g. every ring of boxes and mutable vectors) -/
+theorem worklist_space_linear_partial (c : Cfg) (g : Graph) (hg : ∀ v, markTracked c g v = false → g.sons v = [])
+    (roots : List Nat) (n : Nat) (t : WlSt) (h : runN (wlStep g (markTracked c g)) n { work := roots, vis := [] } = some t) :
+    t.work.length ≤ roots.length + g.edges :=
+  wl_space_linear g (markTracked c g) hg (fun v hv => by
+    apply lt_size_of_kind_ne_leaf
+    intro hk
+    simp [markTracked, hk] at hv) roots n t h
+
+/-- Non-vacuity (`Cfg.fixed` on the doubling dag of depth 3: 6 edges; `Cfg.current` on a ring of boxes). -/
+example : ∃ m, markRun Cfg.fixed (dag 3) (1 + (dag 3).edges + 1) [3] = some m :=
+  (worklist_space_linear Cfg.fixed rfl rfl (dag 3) [3]).2
+example : (dag 3).edges = 6 ∧ markRun Cfg.fixed (dag 3) 8 [3] = some [1, 2, 3] := by decide
+
+/-- **Heap space of the drop handler** — for every graph and every table of strong counts the drop buffer never holds more
+    than `1 + |edges|` values (every node is taken apart at most once). -/
+theorem drop_worklist_space_linear (g : Graph) (rc : List Nat) (root : Nat) (n : Nat) (t : DropSt)
+    (h : runN (dropStep g) n { work := [root], rc := rc, freed := [] } = some t) : t.work.length ≤ 1 + g.edges :=
+  drop_space_linear g rc root n t h
 
 /-- The code as it is: the marker, the cycle collector and sending a value to a thread are worklists / moves. -/
 theorem iterative_ops_current : (Op.iterativeIn Cfg.current .mark && Op.iterativeIn Cfg.current .collect &&
     Op.iterativeIn Cfg.current .send) = true := by decide
 
-/-- For the fixed configuration every operation except printing is constant, … -/
-theorem iterative_ops_fixed : ∀ op : Op, op ≠ .print → op.iterativeIn Cfg.fixed = true := by
-  intro op h; cases op <;> simp_all [Op.iterativeIn, Cfg.fixed]
+/-- For the fixed configuration every operation except printing and `serialize-value` (no repair is modelled: K18e) is
+    constant, … -/
+theorem iterative_ops_fixed : ∀ op : Op, op ≠ .print → op ≠ .serialize → op.iterativeIn Cfg.fixed = true := by
+  intro op h h'; cases op <;> simp_all [Op.iterativeIn, Cfg.fixed]
 
 /-- … and printing stays below the explicit depth limit (plus the two frames of the entry points), for all graphs,
     as soon as no kind re-enters `Display` (`Cfg.fixed`), or no such kind occurs in the value (`Cfg.current`). -/
@@ -268,6 +337,106 @@ example : dropRun (dag 3) 23 3 = some ([0, 1, 2, 3], [0, 0, 0, 0]) ∧ dropBound
     nothing is freed — the cycle is leaked, as the doc comment says; freeing is claimed for acyclic graphs only. -/
 example : (dropRun (ring .sbox 2) 10 0).map (·.1) = some [] := by decide
 
+/-- **sweep** — one pass over the slot array: it ends after `|slots| + 1 ≤ |g| + 1` rounds (one frame) and frees exactly
+    the slots without a mark. -/
+theorem sweep_frees_exactly_unmarked (g : Graph) (marked : List Nat) :
+    ∃ r, iter (sweepStep marked) ((slots g).length + 1) { todo := slots g, free := [] } = some r ∧
+      ∀ v, v ∈ r ↔ ((g.kind v = .box ∨ g.kind v = .mvec) ∧ v ∉ marked) := by
+  obtain ⟨r, hr, hm⟩ := sweep_run marked (slots g) []
+  refine ⟨r, hr, fun v => ?_⟩
+  rw [hm v, mem_slots]
+  simp
+
+/-- **a full collection** — whenever the mark phase ends (with the marked set `m`), the collection ends within the same
+    fuel (if it is at least `|g| + 1`) and frees exactly the heap slots that are not in `m`: in particular every cycle of
+    boxes / mutable vectors that the marker did not reach — cycles through heap slots are not reference-count cycles
+    (the handles are weak), they are reclaimed by the sweep. -/
+theorem collect_frees_exactly_unmarked (c : Cfg) (g : Graph) (fuel : Nat) (hf : g.size + 1 ≤ fuel) (roots m : List Nat)
+    (hm : markRun c g fuel roots = some m) :
+    ∃ r, collectRun c g fuel roots = some r ∧ ∀ v, v ∈ r ↔ ((g.kind v = .box ∨ g.kind v = .mvec) ∧ v ∉ m) := by
+  obtain ⟨r, hr, hv⟩ := sweep_frees_exactly_unmarked g m
+  refine ⟨r, ?_, hv⟩
+  unfold collectRun
+  rw [hm]
+  exact iter_mono hr (by have := slots_length_le g; omega)
+
+/-- Non-vacuity: two disjoint rings of two boxes, root in the first: the second ring (nodes 2, 3) is freed. -/
+example : collectRun Cfg.current (twoRings .box 2) 10 [0] = some [3, 2] := by decide
+
+/-- **reference-count cycles** — a value that is still referenced from elsewhere (from inside itself: a cycle through strong
+    boxes, which are reference counted and not heap slots) when the outside reference goes is not taken apart at all: the
+    drop ends after two rounds with nothing freed, and the sweep does not know strong boxes (`slots`).  The cycle is
+    LEAKED — no operation of the host is exhausted by it, the memory is. -/
+theorem rc_cycle_leaked (g : Graph) (rc : List Nat) (root : Nat) (h : 2 ≤ rc.getD root 0) :
+    iter (dropStep g) 2 { work := [root], rc := rc, freed := [] } = some ([], rc.set root (rc.getD root 0 - 1)) :=
+  drop_shared_root_frees_nothing g rc root h
+
+example : (initRc (ring .sbox 3) 0).getD 0 0 = 2 ∧ (dropRun (ring .sbox 3) 2 0).map (·.1) = some [] ∧
+    slots (ring .sbox 3) = [] := by decide
+
+/-- **nested comparison of keys** — for the code as it is (box pairs and vector pairs are entered into `visited`), `==` with
+    `d` native re-entries available for keys that are containers ends for every `d`, every graph and every pair: each level
+    is one run of the worklist (fresh queues, fresh visited set) whose key comparison is the level below.  What grows
+    with the nesting of keys is the NATIVE DEPTH (`eq_key_depth_linear`, K18d), not the number of rounds per level. -/
+theorem eq_nested_terminates_current (g : Graph) (d a b : Nat) :
+    ∃ r : Bool, eqRun Cfg.current g (eqBoundPoly g) d a b = some r :=
+  eqRun_terminates Cfg.current (by decide) g d a b
+
+example : eqRun Cfg.current (keyChain 3) 50 3 3 3 = some true := by decide
+
+/-- **printing, second phase** (`start_format` / `format_with_cycles`) — when no kind re-enters `Display`, the second phase
+    returns a FINITE text — one header per label, `#i#` for a labelled node, `...` below the depth limit — within
+    `printLimit + 1` native frames: for every graph (cyclic, shared), every root and EVERY label table (also an empty or
+    a wrong one: the depth counter alone stops the recursion; the labels only decide what the text looks like). -/
+theorem print_output_finite (c : Cfg) (g : Graph) (labels : List Nat) (h : ∀ v, printReenters c (g.kind v) = false) (root : Nat) :
+    ∃ out, fmtAll c g labels (printLimit + 1) root = some out := by
+  have := fmtAll_total c g labels h root
+  cases ho : fmtAll c g labels (printLimit + 1) root with
+  | none => simp [ho] at this
+  | some out => exact ⟨out, rfl⟩
+
+theorem print_output_finite_fixed (g : Graph) (labels : List Nat) (root : Nat) :
+    ∃ out, fmtAll Cfg.fixed g labels (printLimit + 1) root = some out :=
+  print_output_finite Cfg.fixed g labels (fun v => by cases (g.kind v) <;> simp [printReenters, Cfg.fixed]) root
+
+/-- the code as it is: values without hash maps / hash sets -/
+theorem print_output_finite_current (g : Graph) (labels : List Nat) (h : ∀ v, g.kind v ≠ .map ∧ g.kind v ≠ .set) (root : Nat) :
+    ∃ out, fmtAll Cfg.current g labels (printLimit + 1) root = some out :=
+  print_output_finite Cfg.current g labels (fun v => by
+    have := h v
+    cases hk : g.kind v <;> simp_all [printReenters, Cfg.current, Cfg.legacy]) root
+
+/-- Non-vacuity: `demoCycle` (mutable vector ⇄ list) with the labels the first phase finds: one header `#0=` and the
+    value written as a reference to it. -/
+example : (ccLabels Cfg.current demoCycle 50 { work := [1], vis := [], found := false } []) = [1] ∧
+    fmtAll Cfg.current demoCycle [1] (printLimit + 1) 1 =
+      some [.open 1, .open 2, .ref 0, .atom 0, .close, .close] := by decide
+
+/-- **the prelude's printer** (`scheme/print.scm`: no depth limit, it relies on the labels alone) — when from every node
+    the printer only goes to labelled nodes or to nodes of smaller index, its recursion from `v` is at most `v + 2` deep,
+    whatever fuel it is given: it ends. -/
+theorem prelude_print_terminates_partial (g : Graph) (labels : List Nat) (hg : labelsCutB g labels = true) (fuel : Nat) (top : Bool) (v : Nat) :
+    preludeDepth g labels fuel top v ≤ v + 2 :=
+  preludeDepth_le g labels hg fuel top v
+
+/-- Non-vacuity: a mutable vector (node 2) holding a list (node 1) holding the vector: with the labels of the first phase
+    (the vector) the guard holds — the list's way back into the vector is labelled. -/
+def demoCycleR : Graph := #[{ kind := .leaf, tag := 7 }, { kind := .list, kids := [2, 0] }, { kind := .mvec, kids := [1] }]
+example : ccLabels Cfg.current demoCycleR 50 { work := [2], vis := [], found := false } [] = [2] ∧
+    labelsCutB demoCycleR [2] = true ∧ preludeDepth demoCycleR [2] 1000 true 2 = 3 := by decide
+
+/-- the negation (K18k): a mutable struct that holds itself.  The first phase labels the SLOT of the field (node 1) — the
+    struct was expanded before anything mutable had been met, so `add` did not record it — and the printer, to which
+    fields arrive unboxed, never sees the slot: the recursion uses every level of fuel it is given. -/
+theorem not_prelude_print_terminates (fuel : Nat) :
+    ccLabels Cfg.current selfStruct 50 { work := [0], vis := [], found := false } [] = [1] ∧
+    labelsCutB selfStruct [1] = false ∧ preludeDepth selfStruct [1] fuel true 0 = fuel :=
+  ⟨by decide, by decide, preludeDepth_selfStruct fuel true⟩
+
+/-- … and with `ccTracksAlways` (`Cfg.fixed`) the struct itself gets the label and the printer stops -/
+example : ccLabels Cfg.fixed selfStruct 50 { work := [0], vis := [], found := false } [] = [0] ∧
+    labelsCutB selfStruct [0] = true ∧ preludeDepth selfStruct [0] 1000 true 0 = 2 := by decide
+
 /-! ## 3. Native recursion: depth linear in the depth of the value -/
 
 /-- **D7** — `Hash for SteelVal` on a chain of `n` containers uses `n + 1` native frames: no constant bounds it. -/
@@ -399,6 +568,21 @@ example : nativeDepth Cfg.current .eq demoMap 50 2 ≤ 1 :=
 example : eqTop Cfg.current demoMap 20 2 2 = some true ∧ eqTop Cfg.current demoMap 20 1 1 = some true := by decide
 example : 3 ≤ nativeDepth Cfg.current .eq (keyChain 3) 10 3 := eq_key_depth_linear 3 10 (by decide) (by decide)
 
+/-- **K18e** — `serialize-value` (`into_serializable_value`) on a chain of `n` containers uses `n + 1` native frames. -/
+theorem serialize_depth_linear (k : Kind) (hk : serRecurses k = true) (n fuel : Nat) (hf : n + 1 ≤ fuel) :
+    nativeDepth Cfg.current .serialize (chain k n) fuel n = n + 1 := by
+  simp only [nativeDepth, serDepth]
+  exact serGo_chain k hk n n (Nat.le_refl _) fuel [] (by omega) (by intro x hx; cases hx)
+
+theorem no_constant_bound_serialize (k : Kind) (hk : serRecurses k = true) (b : Nat) :
+    ∃ g fuel v, b < nativeDepth Cfg.current .serialize g fuel v :=
+  ⟨chain k b, b + 1, b, by rw [serialize_depth_linear k hk b (b + 1) (Nat.le_refl _)]; omega⟩
+
+/-- cycles through heap slots do not make the serializer loop (`ctx.visited`): a ring of three boxes is 4 frames deep,
+    whatever the fuel; a strong box is refused at once -/
+example : serDepth (ring .box 3) 100 0 = 4 ∧ serDepth (ring .box 3) 1000 0 = 4 ∧ serDepth (ring .mvec 2) 100 0 = 3 ∧
+    serDepth (ring .sbox 3) 100 0 = 1 ∧ nativeDepth Cfg.current .serialize (chain .list 5) 100 5 = 6 := by decide
+
 /-! ## 4. The table regenerated from the source
 
 The theorems of this section are `decide` over the table `Gen.table` that `translate/` regenerates from /repo on
@@ -452,6 +636,43 @@ theorem worklists_do_not_recurse :
     (table.all fun e => !(e.1 == "mark" || e.1 == "collect" || e.1 == "dropwl" || e.1 == "send") ||
       e.2.2 == T.iterative || e.2.2 == T.atomic) = true ∧ mark2Recursive = [] := by decide
 
+/-! ### the call graph of the traversal code
+
+`Gen.wlCalls` / `Gen.wlFns`: the functions of the marker (both copies), the cycle collector, the drop handler, the `Drop`
+impls that start it and the functions they hand the visitor to (`visit_children`, `drop_mut`, …: every function of that name
+in the crate), with the calls the scan finds in their bodies.  These are again statements about the scanner's output. -/
+
+set_option maxRecDepth 1000000 in
+/-- no function of the worklist traversals reaches itself: no `visit_*` method (or helper, or custom-type hook) leads back
+    into a `visit` loop, directly or through other methods — a recursive path makes the list unorderable and this fails -/
+theorem worklist_call_graphs_acyclic : rankedB Gen.wlCalls = true ∧ Gen.wlCalls.length = Gen.wlFns.length ∧
+    Gen.recursivePaths = [] := by decide
+
+set_option maxRecDepth 1000000 in
+theorem worklist_chain_depths :
+    (Gen.wlEntries.all fun e => decide (chainDepth Gen.wlCalls (e.2 + 1) e.2 ≤ 5)) = true ∧
+    (Gen.wlDropEntries.all fun e => decide (chainDepth Gen.wlCalls (e + 1) e ≤ 7)) = true := by decide
+
+/-- **the native stack of the scanned code** — whatever value drives them, the nested calls below the `visit` of the marker,
+    of its parallel copy, of the cycle collector and of the drop handler are at most 5 deep (`visit` → `visit_custom_type`
+    → `visit_children` → `gc_visit_children` → `push_back` is the longest), and below a `Drop` impl at most 7: the proof is
+    `call_chain_bounded` (a call graph without cycles bounds every chain of nested calls) applied to the regenerated graph. -/
+theorem worklist_native_stack_scanned (op : String) (e : Nat) (he : (op, e) ∈ Gen.wlEntries) (chain : List Nat)
+    (hc : IsCallChain Gen.wlCalls e chain) : chain.length + 1 ≤ 5 := by
+  have h1 := call_chain_bounded Gen.wlCalls worklist_call_graphs_acyclic.1 chain e (e + 1) (by omega) hc
+  have h2 := worklist_chain_depths.1
+  rw [List.all_eq_true] at h2
+  have := h2 (op, e) he
+  simp only [decide_eq_true_eq] at this
+  omega
+
+set_option maxRecDepth 1000000 in
+/-- **K18d in the call graph** — the equality handler does reach itself: the arms for hash maps / hash sets look keys up
+    (`r.get(key)`), which is `PartialEq for SteelVal`, which builds a new handler.  The flag of the model is exactly this. -/
+theorem eq_reenters_itself_scanned :
+    reachesB Gen.eqCalls Gen.eqEntry Gen.eqCalls.length [Gen.eqEntry] = !Gen.eqKeysIterative ∧
+    rankedB Gen.eqCalls = Gen.eqKeysIterative := by decide
+
 /-- the configuration of the model that stands for the code is the one the scan finds -/
 def scannedCfg : Cfg :=
   { eqBoxVisited := Gen.eqBoxVisited, eqMixVecVisited := Gen.eqMixVecVisited, eqKeysIterative := Gen.eqKeysIterative,
@@ -500,7 +721,7 @@ example : nativeDepth Cfg.current .drop (chain .pair 5) 100 5 = 1 ∧ nativeDept
 
 example : nativeDepth Cfg.current .hash (chain .list 5) 100 5 = 6 := by decide
 example : nativeDepth Cfg.fixed .hash (chain .list 5) 100 5 = 1 := by decide
-example : nativeDepth Cfg.current .mark (chain .list 5) 100 5 = 1 := by decide
+example : nativeDepth Cfg.current .mark (chain .list 5) 100 5 = 3 := by decide
 example : hashLim (chain .list 5) 6 5 = some () ∧ hashLim (chain .list 5) 5 5 = none := by decide
 example : (dropRun (chain .pair 3) 100 3).map (·.1) = some [0, 1, 2, 3] := by decide
 example : acyclicB (chain .pair 3) = true ∧ allHeldB (chain .pair 3) 3 = true := by decide
@@ -511,34 +732,52 @@ example : markRun Cfg.current (dag 3) 15 [3] = none ∧ (markRun Cfg.current (da
 
 For the code as it is (`Cfg.current`) several clauses of the property are FALSE in the model, and what is proved is
 their negation: hashing (`recursive_depth_linear`, `hash_cycle_overflows`: K18a), printing of nested hash maps / sets
-(`print_depth_linear_maps`: K18b), `equal?` on maps keyed by maps (`eq_key_depth_linear`: K18d), dropping chains of
-closures / strong boxes (`drop_depth_linear`: K18f), marking a ring of strong boxes (`not_mark_terminates_cyclic`)
-and the exponential marking of shared immutable structure (`mark_not_polynomial`).  Not carried by any theorem:
+(`print_depth_linear_maps`: K18b), `equal?` on maps keyed by maps (`eq_key_depth_linear`: K18d — the re-entry is also
+visible in the scanned call graph: `eq_reenters_itself_scanned`), `serialize-value` (`serialize_depth_linear`: K18e),
+dropping chains of closures / strong boxes (`drop_depth_linear`: K18f), marking a ring of strong boxes
+(`not_mark_terminates_cyclic`: K18g), the exponential marking of shared immutable structure (`mark_not_polynomial`:
+K18i), the prelude's printer on a mutable struct that holds itself (`not_prelude_print_terminates`: K18k).
+Not carried by any theorem:
 
-* "Creating": construction of values (reader, `list`/`vector` constructors, `cons` chains built by loops) is not
-  modelled.
-* "using native stack space independent of the value's depth" for `mark`, `collect`, `send`: true BY CONSTRUCTION of
-  the model (`worklist_depth_by_construction`); the evidence about the code is the regenerated table
-  (`worklists_do_not_recurse`) and the differential run.  HEAP space of the worklists (`visited` sets of size
-  |g|², the exponential `mark` queue) is not bounded by any theorem.
-* "sending to another thread": `send` is a move of one reference in the model; `serialize-value` (closures sent to
-  `spawn-native-thread`) is natively recursive in the table (K18e) and not modelled as an operation.
-* "collecting": only the MARK phase, and for `Cfg.current` only under the guard `untrackedDescB` (untracked nodes —
-  immutable containers, strong boxes — have untracked children of smaller index); sweep, the reference-count
-  based collection of unreachable cycles and the weak-reference upgrade are not modelled.
-* "comparison … of cyclic structures terminate": `eq_terminates_cyclic_current` is one run of the worklist with
-  `keyEq` an arbitrary total function; the nested `==` on container keys (`eqRun`: fresh queues per level) is not
-  proved to terminate; `eqv?`/`eq?`, numeric towers, and custom `PartialEq` of opaque Rust values are outside.
-* "printing of cyclic structures terminate": `print_terminates_cyclic(_partial)` is the FIRST phase (cycle
-  collector), for `Cfg.current` only under the guard `ccDescB` (every cycle passes through a heap box, strong box
-  or mutable vector).  The second phase (`format_with_cycles`) is modelled by its native depth only
-  (`printDepth`, cut off by fuel): that it emits finitely many characters — that the cycle table stops it at
-  every back edge, and how wide the output of shared structure is — is not a theorem.
+* "Creating": construction of values (reader, `list` / `vector` constructors, `apply`, `map`, `append`, `list->vector`,
+  transducers) is not modelled; it is exercised on the real engine only (shapes `built:*` of the check: 20 construction
+  primitives on 10^6 elements, element count compared with S).
+* "using native stack space independent of the value's depth" for `mark`, `collect`: now a theorem about the visitor
+  MACHINE (`machine_native_stack_bounded`, ≤ 4 frames in every reachable state) that is tied to the loop model of the
+  termination theorems for the marker (`marker_loop_is_machine_run`); for the cycle collector the machine has the
+  `found_mutable` switch but no simulation theorem against `ccStep` (the check compares the two on every generated shape).
+  The 5th frame of the scanned code (custom types handing the visitor to `visit_children` → `gc_visit_children`) is in the
+  call graph (`worklist_native_stack_scanned`: ≤ 5) but custom types are not a kind of the model.  The call graph is a
+  regex scan: calls through closures / trait objects other than the functions named like the ones the visitor is handed
+  to, and the compiler's drop glue for temporaries inside `visit_*` methods, are not seen.
+* HEAP space: `worklist_space_linear` (≤ |roots| + |edges| entries) needs a mark on every container (`Cfg.fixed`) or a
+  value without immutable containers (`…_partial`); for the code as it is on shared immutable structure no bound is
+  proved (time is exponential: K18i; the depth-first queue stays small in the runs of the check but that is not a
+  theorem).  `drop_worklist_space_linear` holds for every graph.  The `visited` SET of `equal?` (|g|² pairs) and the
+  parallel marker's `SegQueue` are not bounded by a theorem.
+* "sending to another thread": `send` is a move of one reference in the model (table: `channel_send` does
+  `as_rooted`); `serialize-value` is modelled by its native depth and its `visited` set only (no output).
+* "collecting": mark (under the guard `untrackedDescB` for `Cfg.current`) + sweep (`collect_frees_exactly_unmarked`:
+  frees exactly the unmarked slots); that the marked set is the set of nodes REACHABLE from the roots is not proved here
+  (C04's subject); the minor collection (`weak_count == 0`), growth / compaction of the slot array and the weak-reference
+  upgrade are not modelled.  Reference-count cycles (strong boxes) are leaked (`rc_cycle_leaked`) — never collected.
+* "comparison … of cyclic structures terminate": `eq_terminates_cyclic_current` (one run, arbitrary total `keyEq`) and
+  `eq_nested_terminates_current` (every level of nested key comparison, for every bound `d` on the nesting); a cycle
+  THROUGH keys (a map that is reachable from its own key through a box) makes the real nesting unbounded — in the model
+  that is `d → ∞`, i.e. the native depth (K18d), not a theorem about rounds; `eqv?`/`eq?`, numeric towers, and custom
+  `PartialEq` of opaque Rust values are outside.
+* "printing of cyclic structures terminate": first phase `print_terminates_cyclic(_partial)` (for `Cfg.current` under the
+  guard `ccDescB`); second phase `print_output_finite(_current)`: finite text within 129 frames for every graph and
+  every label table, but only for values without hash maps / hash sets (K18b), and the text is a list of abstract
+  tokens (widths of shared structure: up to maxDeg^128 tokens — not bounded polynomially by a theorem).  That the
+  first phase's labels cut every cycle (`labelsCutB` of `ccLabels`) is NOT proved in general — it is false for
+  `Cfg.current` (K18k) and for `Cfg.fixed` it is checked on the generated shapes only; the prelude's printer ends
+  under that guard (`prelude_print_terminates_partial`).
 * "discarding": `drop_terminates` holds for every graph, but only acyclic graphs are proved to be freed
   (`drop_frees_all_acyclic`); cycles are leaked by the worklist (and left to the collector).  The native depth of
   the drop GLUE is the negative result K18f.
-* "(or returns an error value)": no operation of the model returns an error; `hashLim = none` stands for the
-  process dying of stack exhaustion.
+* "(or returns an error value)": no operation of the model returns an error (the serializer's refusal of a strong box is
+  depth 1); `hashLim = none` stands for the process dying of stack exhaustion.
 * "hash maps, structs, … closures capturing each other, streams": kinds are modelled by their child lists only;
   streams are never forced; struct fields of mutable structs are `box` nodes; hashing of closures / streams is by
   identity.  "depth up to 10^6": the theorems are for all depths; wall-clock time is not modelled (the bounds are
